@@ -781,7 +781,28 @@ class Executor:
 
     def stmt_For(self, node, st):
         if node.orelse:
-            raise Unsupported("for/else")
+            # for/else without `break` in the body: the else block is the code after the loop
+            def has_break(stmts):
+                for n in stmts:
+                    for x in ast.walk(n):
+                        if isinstance(x, ast.Break):
+                            return True
+                return False
+
+            if has_break(node.body):
+                raise Unsupported("for/else with break")
+            plain = ast.For(target=node.target, iter=node.iter, body=node.body, orelse=[], type_comment=None)
+            ast.copy_location(plain, node)
+            # keep the identity used for the loop ordinal
+            self._for_alias = getattr(self, "_for_alias", {})
+            self._for_alias[id(plain)] = id(node)
+            outs = []
+            for o in self.stmt_For(plain, st):
+                if o.kind == "normal":
+                    outs.extend(self.exec_block(node.orelse, o.state))
+                else:
+                    outs.append(o)
+            return outs
         if not hasattr(self, "_loop_ids"):
             self._loop_ids = {}
         owner = getattr(self, "_cur_fn", self.fn.node)
@@ -790,9 +811,10 @@ class Executor:
             # ast.walk is breadth-first; renumber in source order
             fors = sorted((x for x in ast.walk(owner) if isinstance(x, (ast.For, ast.While))), key=lambda x: (x.lineno, x.col_offset))
             self._loop_ids[id(owner)] = {id(n): k for k, n in enumerate(fors)}
-        if id(node) not in self._loop_ids[id(owner)]:
+        nid = getattr(self, "_for_alias", {}).get(id(node), id(node))
+        if nid not in self._loop_ids[id(owner)]:
             raise Unsupported(f"loop inside an inlined callee at {self.where(node)}")
-        ordinal = self._loop_ids[id(owner)][id(node)]
+        ordinal = self._loop_ids[id(owner)][nid]
         spec = getattr(self.contract, "loops", {}).get(ordinal)
         if isinstance(spec, str):
             spec = getattr(self.contract, spec)
@@ -1315,7 +1337,14 @@ class Executor:
         if b.kind == "tuple":
             r = z3.Or(*[self.val_of(a) == self.val_of(x) for x in b.t]) if b.t else z3.BoolVal(False)
             return [(st, "val", sv_bool(z3.Not(r) if negate else r))]
-        kind = self.container_kind(node.comparators[0])
+        cmp0 = node.comparators[0]
+        if isinstance(cmp0, (ast.Tuple, ast.List)) and not any(isinstance(e, ast.Starred) for e in cmp0.elts):
+            # x in (a, b, ...): `is` or `==` against each element of the literal
+            bt, at = as_val(b), self.val_of(a)
+            hh = Heap(self, st)
+            r = z3.Or(*[T.py_eq(at, hh.lget(bt, i)) for i in range(len(cmp0.elts))]) if cmp0.elts else z3.BoolVal(False)
+            return [(st, "val", sv_bool(z3.Not(r) if negate else r))]
+        kind = self.container_kind(cmp0)
         bt, at = as_val(b), self.val_of(a)
         h = Heap(self, st)
         if kind in ("dict", "set"):
